@@ -27,3 +27,14 @@ package helpers
 //@ ensures.sizes[C09] forall j int :: 0 <= j && j < chunks ==> chunkM(len(slice), chunks) - 1 <= chunkLo(len(slice), chunks, j+1) - chunkLo(len(slice), chunks, j) && chunkLo(len(slice), chunks, j+1) - chunkLo(len(slice), chunks, j) <= chunkM(len(slice), chunks)
 //@ ensures.cover[C09] chunkLo(len(slice), chunks, 0) == 0 && chunkLo(len(slice), chunks, chunks) == len(slice)
 //@ modifies nothing
+
+// IsMetadata: the reflect pattern ValueOf(x).FieldByName("Key") is modelled by
+// uninterpreted functions of the dynamic value (trusted reflect intrinsic):
+// refl.field(refl.valueof(x), "Key") is the (promoted) field Key of x, refl.isvalid says whether it exists.
+//@ pure opaque isMeta(data int) bool = upred("refl.isvalid", uninterp("refl.field", uninterp("refl.valueof", data), "Key")) && (hasprefix(str(uninterp("refl.bytes", uninterp("refl.field", uninterp("refl.valueof", data), "Key"))), Prefix) || hasprefix(str(uninterp("refl.bytes", uninterp("refl.field", uninterp("refl.valueof", data), "Key"))), TxnPrefix))
+
+//@ func IsMetadata
+//@ props C14 C03
+//@ reveal isMeta
+//@ ensures.prefix[C14] result == isMeta(data)
+//@ modifies nothing
